@@ -148,6 +148,29 @@ theorem listeners_registered_by_identity :
     ∀ e ∈ TTGen.C11_Wiring.listenerAppends, e.2 = true := by
   decide
 
+/-- **flags_reset_only_after_success.**  In every getter of every class the dirty flag is reset only where the
+recomputation has succeeded: never in a `finally:` / `except` block and never before a statement that still computes.
+So a getter that RAISES leaves its flag set (and its cache untouched): the next call recomputes or raises again,
+it cannot answer from the cache (`failed_eval_keeps_inv` is the machine's side of this). -/
+theorem flags_reset_only_after_success :
+    ∀ e ∈ TTGen.C11_Wiring.flagResets, e.2.2.2 = true := by
+  decide
+
+/-- **failed_eval_keeps_inv.**  A getter call on cell `c` that fails in its own computation has evaluated (some of)
+the cells it reads and then raised, leaving its own cache and flag as they were: the cache-coherence invariant still
+holds and no parameter moved — so by `wellwired_no_stale_from` every later call returns the fresh value (or fails
+again), never a value cached for earlier parameter values. -/
+theorem failed_eval_keeps_inv (m : Machine) (hwf : WF m) (F : Nat → List V → V) (s : State V) (hs : Inv m F s)
+    (c : Nat) (hc : c < m.nC) (k : Nat) :
+    Inv m F (evalReads (evalF m F m.nC) ((m.cellAt c).reads.take k) s).2 ∧
+    (evalReads (evalF m F m.nC) ((m.cellAt c).reads.take k) s).2.leaf = s.leaf := by
+  have h := evalReads_spec m F (evalF m F m.nC) ((m.cellAt c).reads.take k) s (by
+    intro r hr
+    have hr' := List.mem_of_mem_take hr
+    have := hwf.reads_lt c hc r hr'
+    exact evalF_spec m hwf F m.nC r.1 (by omega) (by omega)) hs
+  exact ⟨h.2.1, h.2.2⟩
+
 /-- **torchtree_no_stale.**  Any object graph built from the covered classes — as extracted from
 real objects by the harness: it passes the executable well-formedness and conformance checks —
 never returns a stale value and no parameter update raises, for all operation sequences. -/
